@@ -321,6 +321,9 @@ func genMix(p *Plan, r *RNG, bias string) {
 	if !v6 && !tcpl && r.Chance(1, 8) {
 		addLookalikePeers(p, r)
 	}
+	if r.Chance(1, 6) {
+		addHairpin(p, r)
+	}
 	addFaults(p, r, faultLevel(r))
 	if r.Chance(1, 5) {
 		addOverlap(p, r)
@@ -465,4 +468,60 @@ func addLookalikePeers(p *Plan, r *RNG) {
 		Op{Actor: c, Kind: "chanbind", At: gap(200 * ms), A: OpArgs{Peer: b.Addr, Chan: ch}}, // the number is taken: 400
 		Op{Actor: "pb", Kind: "peer_send", At: gap(200 * ms), A: OpArgs{Target: c, Len: r.Range(10, 100)}})
 	p.Flavor += "+lookalike"
+}
+
+// addHairpin: traffic between two allocations of the same server, and through one's own relay.
+// The "peer" of a client is another client's relayed address ("@c2", resolved when the
+// operation is issued): what relay A emits arrives at relay B as a peer datagram and is
+// forwarded - or not - by B's rules (a permission for the relay IP, a channel bound to A's
+// relayed address), with A's relayed address as the peer address. Both halves are judged by
+// the ordinary rules; this family makes the server its own peer.
+func addHairpin(p *Plan, r *RNG) {
+	if len(p.Clients) == 0 {
+		return
+	}
+	p.Flavor += "+hairpin"
+	ids := []string{}
+	for _, c := range p.Clients {
+		ids = append(ids, c.ID)
+	}
+	var ops []Op
+	n := r.Range(3, 12)
+	for i := 0; i < n; i++ {
+		a := ids[r.Intn(len(ids))]
+		b := ids[r.Intn(len(ids))]
+		if r.Chance(1, 5) {
+			b = a // the loop through one's own relay
+		}
+		g := gap(int64(r.Range(5, 900)) * ms)
+		switch r.Intn(6) {
+		case 0:
+			ops = append(ops, Op{Actor: b, Kind: "createperm", At: g, A: OpArgs{Peer: "@" + a}}) // b lets a's relay in
+		case 1:
+			ops = append(ops, Op{Actor: a, Kind: "createperm", At: g, A: OpArgs{Peer: "@" + b}})
+		case 2:
+			ops = append(ops, Op{Actor: a, Kind: "chanbind", At: g, A: OpArgs{Peer: "@" + b, Chan: 0x4000 + r.Intn(3)}})
+		case 3, 4:
+			ops = append(ops, Op{Actor: a, Kind: "send", At: g, A: OpArgs{Peer: "@" + b, Len: r.Range(1, 400)}})
+		case 5:
+			ops = append(ops, Op{Actor: a, Kind: "chandata", At: g, A: OpArgs{Chan: 0x4000 + r.Intn(3), Len: r.Range(1, 400)}})
+		}
+	}
+	// inserted after the allocations, before the tail of the plan
+	k := len(p.Clients)
+	if k > len(p.Ops) {
+		k = len(p.Ops)
+	}
+	if len(p.Ops) > k {
+		k = r.Range(k, len(p.Ops))
+	}
+	out := append([]Op{}, p.Ops[:k]...)
+	out = append(out, ops...)
+	p.Ops = append(out, p.Ops[k:]...)
+	// operations that name another one by its number (retransmit, replay) follow the shift
+	for i := range p.Ops {
+		if o := &p.Ops[i]; (o.Kind == "retransmit" || o.Kind == "replay") && o.A.N > k {
+			o.A.N += len(ops)
+		}
+	}
 }
